@@ -228,9 +228,14 @@ func (c *Client) profile() (proto.Profile, error) {
 	return p, nil
 }
 
-// packet reads server code.
+// packet reads server code, waiting no longer than single packet read timeout.
 func (c *Client) packet(ctx context.Context) (proto.ServerCode, error) {
-	timeout := c.readTimeout
+	return c.packetTimeout(ctx, c.readTimeout)
+}
+
+// packetTimeout reads server code, waiting no longer than timeout (if it is
+// positive) and no longer than context deadline.
+func (c *Client) packetTimeout(ctx context.Context, timeout time.Duration) (proto.ServerCode, error) {
 	var deadline time.Time
 	if timeout > 0 {
 		deadline = time.Now().Add(timeout)
